@@ -99,7 +99,8 @@ pub fn run(a: &Args) -> Report {
             if lib_bytes != ref_bytes {
                 rep.violation(&format!("{}/large-registry-encode", prop), format!("a registry of {} entries encodes differently from the layout", n), case.clone());
             }
-            for (what, res) in [("slice", guard(|| PortableRegistry::decode(&mut &ref_bytes[..]))), ("stream", guard(|| PortableRegistry::decode(&mut scale::IoReader(&ref_bytes[..]))))] {
+            for (what, res) in [("slice", guard(|| PortableRegistry::decode(&mut &ref_bytes[..]))), ("stream", guard(|| PortableRegistry::decode(&mut scale::IoReader(&ref_bytes[..])))),
+                                ("depth-limit-48", guard(|| PortableRegistry::decode_with_depth_limit(48, &mut &ref_bytes[..])))] {
                 match res {
                     Ok(Ok(r2)) if r2 == r => {}
                     Ok(Ok(r2)) => rep.violation(&format!("{}/large-registry-roundtrip", prop), format!("a registry of {} entries decodes ({} input) to {} entries / a different value", n, what, r2.types.len()), case.clone()),
